@@ -248,6 +248,13 @@ def run(run):
     for ck in C05.check_leave_one_out(run, E5, pid='C07'):
         fails += ck.failed
     finish_engine(E5, run)
+    # callee contract: ceilings of a bootstrap resample group the copies of an RDM by their (gathered) descriptors -- RDMs.subsample
+    # hands every descriptor of the drawn RDMs on unchanged (contract generated by C09, discharged here too)
+    from contracts import C09
+    E9 = new_engine(run)
+    for ck in C09.check_subsample(run, E9, pid='C07'):
+        fails += ck.failed
+    finish_engine(E9, run)
     lean_lemmas(run)
     fails += tier_b(run, run.tier == 'thorough')
     bds = []
